@@ -56,6 +56,10 @@ def bodies(tier, seed):
             for d in (di[0], di[9], di[10], di[12]):
                 out.append((b, [(hdr(HDRS[0], b), d)], b'', CRLF, True))
             out.append((b, [(hdr(HDRS[2], b), di[8]), (hdr(HDRS[1], b), di[5])], CRLF, b'', True))
+            # the optional CRLF in front of the first delimiter + part data that BEGINS with the delimiter text (a pasted HTTP trace)
+            out.append((b, [(hdr(HDRS[0], b), di[11])], CRLF, CRLF, True))
+            out.append((b, [(hdr(HDRS[0], b), di[12]), (hdr(HDRS[1], b), di[11])], CRLF, b'', True))
+            out.append((b, [(hdr(HDRS[0], b), b'--' + b + b' x' + CRLF + b'-- y'), (hdr(HDRS[1], b), b'')], CRLF, CRLF, True))
         out.append((b'xy', [(b'A: b', b'--')], b'', b'--', True))
         out.append((b'xy', [], b'', CRLF + b'epi', True))
         # epilogues that look like a header block (empty line, CR LF CR x, a header line) after the closing delimiter
@@ -81,6 +85,11 @@ def bodies(tier, seed):
     extra = [b'Q', b'zz-', b'-z', b'0-0-'][seed % 4]
     for d in data_items(extra)[:8]:
         out.append((extra, [(b'A: b', d)], b'', CRLF, True))
+    for b in bnds:
+        di = data_items(b)
+        out.append((b, [(hdr(HDRS[0], b), di[11])], CRLF, CRLF, True))
+        out.append((b, [(hdr(HDRS[0], b), di[12]), (hdr(HDRS[1], b), di[11])], CRLF, b'', True))
+        out.append((b, [(hdr(HDRS[0], b), b'--' + b + b' x' + CRLF + b'-- y'), (hdr(HDRS[1], b), b'')], CRLF, CRLF, True))
     return out
 
 
@@ -163,20 +172,24 @@ def work_search(arg):
     res = core.new_result()
     mp = _mp()
     body, lay = refmp.build(boundary, parts, lead=lead, epilogue=epi, close=close)
-    if not refmp.well_formed(body, boundary, len(parts), lead):
-        res['notes'].append(f'generator produced an ambiguous body, skipped: {body!r}')
-        return res
+    strict = refmp.well_formed(body, boundary, len(parts), lead)
+    if not strict:
+        # the delimiter text occurs where RFC 2046 does not allow it (part data that begins with it): no layout to compare with, and
+        # errors are legitimate - but the first sentence of the property holds for ANY body: the result (parts or error) is the
+        # one-piece result under every division
+        res['notes'].append(f'body outside the strict grammar, differential oracle only: {body!r}')
+        res['counters']['lenient_bodies'] += 1
     L = len(body)
     ref = [one_piece(mp, boundary, body[:q]) for q in range(L + 1)]
     res['execs'] += L + 1
     # absolute oracle on the complete body: sections as laid out by the reference encoder
     exp_sections = [[n, tuple(se)] for n, se in lay['sections']]
-    if ref[L] != (exp_sections, None):
+    if strict and ref[L] != (exp_sections, None):
         core.add_violation(res, {'kind': 'onepiece', 'boundary': boundary, 'body': body,
                                  'expected_sections': exp_sections},
                            f'one-piece parse {ref[L]} != encoder layout {exp_sections}', sig='onepiece-vs-layout')
     for q in range(L + 1):
-        if ref[q][1] is not None:
+        if strict and ref[q][1] is not None:
             core.add_violation(res, {'kind': 'prefix-error', 'boundary': boundary, 'body': body, 'cuts': [q]},
                                f'one-piece parse of a prefix ({q} bytes) of a well-formed body reports {ref[q][1]}',
                                sig=f'prefix-error:{ref[q][1]}')
